@@ -377,7 +377,7 @@ package environment
 //@   requires forall i in 0..len(args) :: isArray(args[i]) ==> forall j in 0..len(elems(args[i])) :: validObj(elems(args[i])[j])
 //@   modifies nothing
 //@   ensures @C17 split.bad: !(len(args) == 2 && isStr(args[0]) && isStr(args[1])) ==> isNull(result)
-//@   ensures @C17 split.kind: len(args) == 2 && isStr(args[0]) && isStr(args[1]) ==> isArray(result) && fresh(result) && forall k in 0..len(elems(result)) :: isStr(elems(result)[k])
+//@   ensures @C17 @C08 split.kind: len(args) == 2 && isStr(args[0]) && isStr(args[1]) ==> isArray(result) && fresh(result) && forall k in 0..len(elems(result)) :: isStr(elems(result)[k])
 //@   ensures fnsplit.valid: validObj(result)
 //@   implements HostFn
 //@   panics never
